@@ -83,7 +83,12 @@ class XARecord:
                 continue
 
             if unused != b'\x00\x00\x00\x00\x00':
-                raise pycdlibexception.PyCdlibInvalidISO('Unused fields should be 0')
+                if offset == 0:
+                    raise pycdlibexception.PyCdlibInvalidISO('Unused fields should be 0')
+                # The padded location is only a heuristic.  Bytes that merely
+                # look like the signature there (for instance a Rock Ridge
+                # name that starts with 'XA') are not an XA record.
+                continue
 
             self._pad_size = offset
             break
